@@ -12,7 +12,7 @@ package main
 //
 // Supported fragment (anything else is a translation error, reported as a failed obligation):
 // parameters and results of type bool, byte, rune, int, uint*, Look and []byte; statements
-// `return`, `if` / `else` whose branches end in `return`, tag and tagless `switch` whose clauses
+// `return`, `if` / `else` (also `if x := e; cond`) whose branches end in `return`, tag and tagless `switch` whose clauses
 // end in `return` or fall out of the switch, `x := e`, `_, x := f(..)`; expressions built from
 // literals, named constants of the table below, parameters and locals, `len`, indexing,
 // slicing, conversions, comparison / boolean / arithmetic / bit operators, calls of other
@@ -85,6 +85,8 @@ type g2v struct {
 	prefix string
 	funcs  map[string]gty // translated functions of this prefix -> result type
 	env    map[string]gty
+	ren    map[string]string // Go name -> Gallina name for variables scoped to an if statement
+	nfresh int
 	err    error
 }
 
@@ -157,6 +159,9 @@ func (g *g2v) expr(e ast.Expr) (string, string, gty) {
 			return x.Name, "true", tBool
 		}
 		if t, ok := g.env[x.Name]; ok {
+			if n, ok := g.ren[x.Name]; ok {
+				return n, "true", t
+			}
 			return cname(x.Name), "true", t
 		}
 		if _, ok := leafConsts[x.Name]; ok {
@@ -381,11 +386,31 @@ func (g *g2v) stmts(list []ast.Stmt, rest []ast.Stmt) (string, string) {
 		}
 		return "(" + strings.Join(ts, ", ") + ")", andS(ss...)
 	case *ast.IfStmt:
+		follow := append(append([]ast.Stmt{}, tail...), rest...)
+		// `if x := e; cond { .. }`: x is scoped to the if statement; it gets a fresh Gallina name so
+		// that the statements after the if (translated inside the same let) cannot see it
+		var initName, initTerm, initSafe, initGo string
+		var hadOld bool
+		var oldTy gty
+		var oldRen string
+		var hadRen bool
 		if x.Init != nil {
-			g.fail(s, fsetG, "if with init")
+			as, ok := x.Init.(*ast.AssignStmt)
+			if !ok || as.Tok != token.DEFINE || len(as.Lhs) != 1 || len(as.Rhs) != 1 {
+				g.fail(s, fsetG, "if with an init statement other than `x := e`")
+				return "0%Z", "true"
+			}
+			r, sr, tr := g.expr(as.Rhs[0])
+			initGo = as.Lhs[0].(*ast.Ident).Name
+			g.nfresh++
+			initName = fmt.Sprintf("%s_if%d_", initGo, g.nfresh)
+			initTerm, initSafe = r, sr
+			oldTy, hadOld = g.env[initGo]
+			oldRen, hadRen = g.ren[initGo]
+			g.env[initGo] = tr
+			g.ren[initGo] = initName
 		}
 		c, sc, _ := g.expr(x.Cond)
-		follow := append(append([]ast.Stmt{}, tail...), rest...)
 		saved := g.copyEnv()
 		th, sth := g.stmts(x.Body.List, follow)
 		g.env = saved
@@ -393,6 +418,10 @@ func (g *g2v) stmts(list []ast.Stmt, rest []ast.Stmt) (string, string) {
 		saved = g.copyEnv()
 		switch e := x.Else.(type) {
 		case nil:
+			// the statements after the if do not see the init variable
+			if x.Init != nil {
+				g.unbind(initGo, hadOld, oldTy, hadRen, oldRen)
+			}
 			el, sel = g.stmts(follow, nil)
 		case *ast.BlockStmt:
 			el, sel = g.stmts(e.List, follow)
@@ -400,7 +429,13 @@ func (g *g2v) stmts(list []ast.Stmt, rest []ast.Stmt) (string, string) {
 			el, sel = g.stmts([]ast.Stmt{e}, follow)
 		}
 		g.env = saved
-		return "(if " + c + "\n then " + th + "\n else " + el + ")", andS(sc, ifS(c, sth, sel))
+		term, safe := "(if "+c+"\n then "+th+"\n else "+el+")", andS(sc, ifS(c, sth, sel))
+		if x.Init != nil {
+			g.unbind(initGo, hadOld, oldTy, hadRen, oldRen)
+			term = "(let " + initName + " := " + initTerm + " in\n " + term + ")"
+			safe = andS(initSafe, letS(initName, initTerm, safe))
+		}
+		return term, safe
 	case *ast.SwitchStmt:
 		if x.Init != nil {
 			g.fail(s, fsetG, "switch with init")
@@ -493,6 +528,19 @@ func (g *g2v) stmts(list []ast.Stmt, rest []ast.Stmt) (string, string) {
 	return "0%Z", "true"
 }
 
+func (g *g2v) unbind(name string, hadOld bool, oldTy gty, hadRen bool, oldRen string) {
+	if hadOld {
+		g.env[name] = oldTy
+	} else {
+		delete(g.env, name)
+	}
+	if hadRen {
+		g.ren[name] = oldRen
+	} else {
+		delete(g.ren, name)
+	}
+}
+
 func (g *g2v) copyEnv() map[string]gty {
 	m := map[string]gty{}
 	for k, v := range g.env {
@@ -561,7 +609,7 @@ func go2vMain(args []string) int {
 	}
 	for _, l := range leafList {
 		fd := decls[l.prefix+"_"+l.fn]
-		g := &g2v{prefix: l.prefix, funcs: funcsByPrefix[l.prefix], env: map[string]gty{}}
+		g := &g2v{prefix: l.prefix, funcs: funcsByPrefix[l.prefix], env: map[string]gty{}, ren: map[string]string{}}
 		var params []string
 		var pnames []string
 		for _, p := range fd.Type.Params.List {
